@@ -20,6 +20,7 @@ type genCfg struct {
 	podPortsVary   bool // pods of one owner may declare one port name on different numbers
 	collidePct     int  // probability (pct) that a twin rule's selector has requirement strings that concatenate to the original's
 	repName        bool // a real pod may be named representative-pod
+	samePrioPct    int  // probability (pct) that two AdminNetworkPolicies share one priority (a conflict the tool must reject)
 	icNs           bool // the namespace ingress-controller-ns may hold objects
 	sameName       bool // several workloads (of different kinds) may share one name in a namespace
 }
@@ -543,6 +544,7 @@ func genWorld(r *Rng, cfg *genCfg) *World {
 		n := r.Intn(4)
 		prios := []int{0, 1, 5, 10, 50, 99, 100, 500, 999, 1000}
 		Shuffle(r, prios)
+		twin := n >= 1 && cfg.samePrioPct > 0 && r.P(cfg.samePrioPct)
 		for i := 0; i < n; i++ {
 			a := &ANP{Name: fmt.Sprintf("anp%d", i), Prio: prios[i], Subject: genSubject(r)}
 			if r.P(75) {
@@ -552,6 +554,31 @@ func genWorld(r *Rng, cfg *genCfg) *World {
 				a.Egress = genARules(r, false, "e")
 			}
 			w.Objs = append(w.Objs, Obj{Kind: "anp", Anp: a})
+			if twin && i == 0 {
+				// a second policy with the same priority and subject that says the opposite wherever the first speaks:
+				// a conflict the tool must reject, by every way the policies reach it
+				t := &ANP{Name: "anptwin", Prio: a.Prio, Subject: a.Subject}
+				flip := func(rs []ARule) []ARule {
+					var o []ARule
+					for _, x := range rs {
+						y := x
+						y.Name = x.Name + "t"
+						switch x.Action {
+						case "Allow":
+							y.Action = "Deny"
+						case "Deny":
+							y.Action = "Allow"
+						}
+						o = append(o, y)
+					}
+					return o
+				}
+				t.Ingress, t.Egress = flip(a.Ingress), flip(a.Egress)
+				if len(t.Ingress)+len(t.Egress) == 0 {
+					t.Ingress = []ARule{{Name: "tt", Action: "Deny", Peers: []Subject{{}}, PortsNil: true}}
+				}
+				w.Objs = append(w.Objs, Obj{Kind: "anp", Anp: t})
+			}
 		}
 	}
 	if cfg.banp && r.P(45) {
